@@ -110,7 +110,7 @@ fn is_expression_arm(arm: &ASTTy) -> bool {
         | NodeTy::For { .. }
         | NodeTy::Return { .. } => false,
         NodeTy::IfElse { then, el, .. } => match el {
-            Some(el) => arm.ty.is_some() && is_valid_in_ternary(then, el),
+            Some(el) => is_valid_in_ternary(then, el),
             None => false,
         },
         _ => true,
